@@ -85,8 +85,43 @@ def c07_entry(tier, replay):
         return 2
     return 1 if (rc1 or rc2) else 0
 
+def c01_entry(pid, relay_only):
+    """C01 / C02 = the sequential clauses (handler level) + the concurrent clause (lock-granularity schedules of racing
+    requests on the instrumented real handlers, judged by the extraction of coq/ConcView.v)"""
+    def f(tier, replay):
+        from . import c01conc
+        if replay:
+            if replay.endswith(".json"):
+                return c01conc.do_replay(replay)
+            return l1check.replay(pid, replay)
+        rc1 = l1check.run(pid, tier, L1[pid])
+        if rc1 == 2:
+            return 2
+        rc2 = c01conc.run(tier, None, merge_pid=pid, relay_only=relay_only)
+        if rc2 == 2:
+            return 2
+        return 1 if (rc1 or rc2) else 0
+    return f
+
 CHECKS = {pid: l1_entry(pid) for pid in L1}
 CHECKS["C07"] = c07_entry
+def c13_entry(tier, replay):
+    from . import c13conc
+    if replay:
+        if replay.endswith(".json"):
+            return c13conc.run(tier, replay)
+        return l1check.replay("C13", replay)
+    rc1 = l1check.run("C13", tier, L1["C13"])
+    if rc1 == 2:
+        return 2
+    rc2 = c13conc.run(tier, None, merge=True)
+    if rc2 == 2:
+        return 2
+    return 1 if (rc1 or rc2) else 0
+
+CHECKS["C13"] = c13_entry
+CHECKS["C01"] = c01_entry("C01", False)
+CHECKS["C02"] = c01_entry("C02", True)
 for _pid, _mod in (("C08", "c08check"), ("C09", "c09check"), ("C15", "c15check"), ("C19", "c19check"), ("C20", "c20check")):
     CHECKS[_pid] = mod_entry(_mod)
 
